@@ -164,6 +164,8 @@ func hdlSexp(m *procbuilder.Machine) string {
 		conf.ReqRoot = rg
 		conf.Runinfo = new(procbuilder.RuntimeInfo)
 		conf.Runinfo.Init()
+		// the comment option must not change the hardware: on for every other program
+		conf.Commented_verilog = len(m.Program.Slocs)%2 == 1
 		names := map[string]string{"processor": "p0", "rom": "p0rom", "ram": "p0ram"}
 		files := map[string]string{
 			"a0.v":    m.Arch.Write_verilog("a0", names, "iverilog"),
@@ -391,10 +393,15 @@ func genNet(r *common.Rng) netCase {
 	nc.sicBond = map[int]bool{}
 	sicEnd := map[end]bool{}
 	for b, bd := range nc.bonds {
-		if bd.prod.p < 0 || len(bd.cons) != 1 || bd.cons[0].p < 0 || !r.Chance(1, 3) {
+		if bd.prod.p < 0 || !r.Chance(1+len(bd.cons), 2+2*len(bd.cons)) || len(bd.cons) == 1 && !r.Chance(1, 2) {
+			continue // (fanned-out bonds are taken more often: the other consumers keep the producer going)
+		}
+		// one consumer end of the bond (a processor) reads it with sicv3; the other consumers, if
+		// any, keep reading with i2rw
+		c := bd.cons[r.Intn(len(bd.cons))]
+		if c.p < 0 {
 			continue
 		}
-		c := bd.cons[0]
 		other := false
 		for b2, bd2 := range nc.bonds {
 			for _, c2 := range bd2.cons {
@@ -403,7 +410,7 @@ func genNet(r *common.Rng) netCase {
 				}
 			}
 		}
-		if other {
+		if other || len(bd.cons) > 1 {
 			nc.sicBond[b] = true
 			sicEnd[c] = true
 			nc.procs[c.p].sic = true
@@ -429,6 +436,9 @@ func genNet(r *common.Rng) netCase {
 					if c.p == i {
 						if sicEnd[c] {
 							lines = append(lines, fmt.Sprintf("sicv3 r%d i%d", r.Intn(2), c.port))
+							if r.Chance(1, 2) { // other work right after the acknowledge
+								lines = append(lines, pad(r, 4)...)
+							}
 						} else {
 							lines = append(lines, fmt.Sprintf("i2rw r%d i%d", r.Intn(2), c.port))
 						}
@@ -538,7 +548,19 @@ func runCase(nc netCase, ticks int) {
 		}
 		out.Line("B %d %s %d %s", b, pn(bd.prod), bd.prod.port, strings.Join(cs, ","))
 		if nc.sicBond[b] {
-			out.Line("SIC %d", b)
+			// positions (in the consumer list) of the ends read with sicv3
+			var pos []string
+			for j, c := range bd.cons {
+				if c.p >= 0 {
+					for _, l := range nc.procs[c.p].src {
+						if f := strings.Fields(l); len(f) == 3 && f[0] == "sicv3" && f[2] == "i"+strconv.Itoa(c.port) {
+							pos = append(pos, strconv.Itoa(j))
+							break
+						}
+					}
+				}
+			}
+			out.Line("SIC %d %s", b, strings.Join(pos, ","))
 		}
 		if bd.prod.p >= 0 {
 			ioP[b] = ioAddrs(nc.procs[bd.prod.p].src, true, bd.prod.port)
@@ -760,7 +782,7 @@ func main() {
 				if nc.sicBond == nil {
 					nc.sicBond = map[int]bool{}
 				}
-				nc.sicBond[atoi(strings.TrimSpace(strings.TrimPrefix(l, "SIC ")))] = true
+				nc.sicBond[atoi(strings.Fields(l)[1])] = true
 			case strings.HasPrefix(l, "ENV "):
 				nc.envSeed, _ = strconv.ParseUint(strings.TrimSpace(strings.TrimPrefix(l, "ENV ")), 10, 64)
 			case strings.HasPrefix(l, "TICKS "):
